@@ -259,7 +259,8 @@ def pipe_units(prop, san=False):
                 if tier == "thorough":   # the extended alphabet (9 more operations: roll, repeat, pad, take, broadcast_to, cumsum, multiply, matmul, atleast_nd<ct4>) at depth 2
                     for f2 in ([f] if f < 12 else []) + ([12 + f] if f < 9 else []):
                         us.append(U("pipe_x_k%d_f%d" % (k, f2), "harness/c_pipeline.cpp", opt="-O0", family="pipe", shards=1, tiers=["thorough"],
-                                    flags=["-DPIPE_PROP=%d" % prop, "-DPIPE_KIND=%d" % k, "-DPIPE_FIRST=%d" % f2, "-DPIPE_MAXDEPTH=2", "-DPIPE_THOROUGH_OPS"]))
+                                    flags=["-DPIPE_PROP=%d" % prop, "-DPIPE_KIND=%d" % k, "-DPIPE_FIRST=%d" % f2, "-DPIPE_MAXDEPTH=2", "-DPIPE_THOROUGH_OPS"] +
+                                          (["-ftemplate-depth=5000"] if f2 in (7, 10) else [])))   # a run-time reduction as first stage below the extended operations exceeds g++'s default instantiation depth (900)
                 if tier == "quick" and f == 0 and k in (2, 3, 4):   # quick tier: one extended operation (atleast_nd with a constant nd) as first stage, every operation as second
                     us.append(U("pipe_q_x_k%d_f20" % k, "harness/c_pipeline.cpp", opt="-O0", family="pipe", shards=1, tiers=["quick"],
                                 flags=["-DPIPE_PROP=%d" % prop, "-DPIPE_KIND=%d" % k, "-DPIPE_FIRST=20", "-DPIPE_MAXDEPTH=2", "-DPIPE_THOROUGH_OPS"]))
